@@ -2,8 +2,9 @@
   C04, tier A for the ISIMIP `has_*` properties: the definitions regenerated from `/repo`'s current text
   (`Gen.Config.has_*`, translator group `Config`) are what the layer-N model of ISIMIP (`Model.Isimip.Cfg.has*`) uses,
   and for the `∓∞` settings of an unbounded variable every one of them is `false`.
+  Imports the generated file only (not `Lemmas/GenConfig`, whose other obligations belong to C15).
 -/
-import IbicusModel.Lemmas.GenConfig
+import IbicusModel.Gen.Config
 import IbicusModel.Lemmas.C04Isimip
 
 namespace Props.C04
